@@ -13,6 +13,75 @@ CLAIMED = {
         technique="TLA+ spec Fmmu + TLC exhaustive model check; TLC-enumerated scripts replayed on real "
                   "code; TLC trace validation",
         design_ref="5/C20"),
+
+    "C14": dict(
+        category="model_checking",
+        text="AlDriver.tla composes the terminal's AL state machine with the master's obligations as "
+             "enabling conditions and is model-checked exhaustively. TLC enumerates every terminal script "
+             "within the bound (start state, error flag, each transition taking 0..k polls, an error at any "
+             "poll, each target; k=2 quick, 3 thorough); each is played by a simulated terminal against the "
+             "real Terminal.to_operational on a real EtherCat object, and the recorded 0x120 writes, 0x130 "
+             "reads and outcome are validated by TLC as a behaviour of the spec. Exhaustive within the bound.",
+        note="BOOTSTRAP starts and terminals reporting unrequested states are outside the bound; a stall is "
+             "rejected. Trusts TLC and harness/simbus.py's AL register model.",
+        technique="TLA+ spec AlDriver + TLC exhaustive model check; TLC-enumerated scripts replayed on real "
+                  "code over a simulated bus; TLC trace validation",
+        design_ref="5/C14"),
+    "C17": dict(
+        category="model_checking",
+        text="Sii.tla (SII register protocol: busy bit, 4/8-byte capability) is model-checked exhaustively. "
+             "Fixed-seed well-formed EEPROM images x TLC-enumerated interface scripts (read width, busy "
+             "durations) run the real read_eeprom / parse_sync_managers / parse_pdos (EEPROM and SDO source) "
+             "and EtherCat.eeprom_read over a simulated bus; TLC evaluates SiiImage.tla on each image and "
+             "judges every returned value; register-access traces are validated against Sii.tla.",
+        note="Images are sampled, not exhaustive; ill-formed images are outside the precondition. Trusts "
+             "simbus' SII model (its register behaviour is itself trace-validated) and a minimal expedited "
+             "CoE upload server.",
+        technique="TLA+ specs Sii/SiiImage + TLC model check; TLC-enumerated scripts replayed on real code; "
+                  "TLC evaluation of results and trace validation",
+        design_ref="5/C17"),
+    "C18": dict(
+        category="model_checking",
+        text="Alloc.tla states the requirement on an observed allocation (exact-size regions inside their "
+             "transporting datagram, pairwise disjoint, FMMU logical address mapping to the same bytes, "
+             "logical windows of different groups disjoint, frame <= 1500 or a justified OverflowError); "
+             "the designed address scheme (AllocRef) is model-checked against it. TLC enumerates "
+             "configurations (FMMU / direct / Aerotech terminals, sizes up to 1400, 1-3 groups, regions "
+             "resized around the frame limit); each is built from real terminal, device and SyncGroup "
+             "objects, allocate() is run, and TLC validates pdo_assign, fmmu_maps and the assembled frame.",
+        note="Exhaustive within the bound plus seeded random configurations. An exception other than a "
+             "justified OverflowError is a rejected case. The FMMU length programmed by map_fmmu and "
+             "FastSyncGroup's sterile frames are not covered.",
+        technique="TLA+ spec Alloc + TLC model check of the reference scheme; TLC-enumerated configurations "
+                  "replayed on real code; TLC trace validation",
+        design_ref="5/C18"),
+    "C25": dict(
+        category="model_checking",
+        text="Address.tla (probe / mark-used / assign protocol) is model-checked exhaustively for 3 terminals "
+             "x 4 addresses. Real scan_serial_numbers and concurrent Terminal.initialize run on a simulated "
+             "bus with narrowed address ranges so that collisions are forced, varied start orders and "
+             "response delays; every write of the station-address register must be in range, never written "
+             "before and never an address at which a terminal answered; TLC validates each trace.",
+        note="Schedules are sampled (seeded), not exhaustive. 'Within the configured range' is read as "
+             "lo <= a <= hi, the reading under which the property text is satisfiable by randint; the "
+             "half-open reading used by the mailbox lock file is recorded in DESIGN.md as an observation "
+             "outside C25. No frame loss.",
+        technique="TLA+ spec Address + TLC exhaustive model check; TLC trace validation of real concurrent "
+                  "initialisation on a simulated bus",
+        design_ref="5/C25"),
+    "C30": dict(
+        category="model_checking",
+        text="SlowCycle.tla (Send / Receive / Update per cycle) is model-checked exhaustively on small "
+             "constants. Randomised configurations (FMMU, direct and mixed addressing; byte, word and bit "
+             "variables) run the real SyncGroup.start()/run() for 4-8 cycles on a virtual-time loop and a "
+             "simulated bus with scripted inputs and returned working counters (correct, off by a few, 0, and "
+             ">= 256 with matching or non-matching low byte); TLC validates every trace (frames, responses, "
+             "what devices saw and set, wkc_errors).",
+        note="Expected counters are derived in the spec from the configuration, not read from the code. No "
+             "lost, late or duplicated cyclic frames; cycle 1's error count is not judged.",
+        technique="TLA+ spec SlowCycle + TLC exhaustive model; real SyncGroup.run on a simulated bus; TLC "
+                  "batched trace validation",
+        design_ref="5/C30"),
 }
 NOT_YET = "not yet built in this round (planned in DESIGN.md section 5)"
 NOT_APPLICABLE = {}
